@@ -4,9 +4,12 @@ Exit 0 iff every stable_pass test passes."""
 import json, os, subprocess, sys, tempfile, xml.etree.ElementTree as ET
 base = json.load(open("/root/.vp/BASELINE.json")) if os.path.exists("/root/.vp/BASELINE.json") else None
 repo = os.environ.get("VERIF_REPO", "/repo")
+if not os.path.isdir(os.path.join(repo, "tests")):
+    repo = "/repo"   # scratch copies hold only src/: run /repo's tests against $PYTHONPATH
 with tempfile.TemporaryDirectory() as d:
     x = os.path.join(d, "j.xml")
     env = {k: v for k, v in os.environ.items() if not k.startswith("CONDUCTOR_VERIF")}
+    env["PYTHONDONTWRITEBYTECODE"] = "1"
     subprocess.run(["/venv/bin/python", "-m", "pytest", "-ra", "-q", "-p", "no:cacheprovider", "--timeout=900",
                     "--continue-on-collection-errors", "--junitxml=" + x], cwd=repo, env=env,
                    stdout=subprocess.DEVNULL, stderr=subprocess.DEVNULL)
